@@ -1626,7 +1626,9 @@ def main(tier, seed, only=None):
         tasks += [('d', kv) for kv in key_variants(tier)]
     order = list(range(len(tasks)))
     random.Random(seed).shuffle(order)
-    # long tasks first keeps the 16 workers busy to the end
+    # the seed permutes the order; the (long) part (c) explorations go first
+    # so that the workers stay busy to the end
+    order.sort(key=lambda i: {'c': 0, 'a': 1, 'd': 2}[tasks[i][0]])
     res = [None] * len(tasks)
     if tasks:
         got = par.pmap('harness.c20:_task', [tasks[i] for i in order])
@@ -1780,6 +1782,13 @@ def main(tier, seed, only=None):
         'part (c) explores every interleaving of pipe/lock operations and of '
         'source lines of Server.serve_client/create/incref/decref within the '
         'preemption bound listed per part (max_cost)',
+        'part (c): establishing a connection (socketpair, accept, handler '
+        'thread start, authentication handshake) is scheduled as one atomic '
+        'step: each of its steps touches only the new connection and '
+        'commutes with every step of the other vthreads; which client '
+        'connects first remains an explored decision; one "cold" '
+        'configuration per type has the accept_connection request inside '
+        'the explored phase',
         'Pool/AsyncResult are not hosted (they start real processes)')
     return rep.finish()
 
